@@ -141,7 +141,9 @@ def _positions() -> List[dict]:
     add("arith-left", {NUM, UNK, NULL_}, lambda x, r: ast.Compare(ast.Gt(), ast.BinOp(ast.Add(), x, ast.Integer("1")), ast.Integer("2")))
     add("arith-right", {NUM, UNK, NULL_}, lambda x, r: ast.Compare(ast.Gt(), ast.BinOp(ast.Mult(), fld(_n(r)), x), ast.Integer("2")))
     add("func-arg", {STR, UNK, NULL_}, lambda x, r: ast.Compare(ast.Eq(), ast.Call(I("tolower"), [x]), ast.String("v")))
-    add("pattern-arg", {STR, UNK}, lambda x, r: ast.Call(I("contains"), [fld(_f(r)), x]))
+    add("pattern-arg", {STR, UNK, NULL_}, lambda x, r: ast.Call(I("contains"), [fld(_f(r)), x]))
+    add("pattern-arg-startswith", {STR, UNK, NULL_}, lambda x, r: ast.Compare(ast.Eq(), ast.Call(I("startswith"), [fld(_f(r)), x]), ast.Boolean("true")))
+    add("pattern-subject", {STR, UNK, NULL_}, lambda x, r: ast.Call(I("endswith"), [x, ast.String("v")]))
     add("bool-left", {BOOL}, lambda x, r: ast.BoolOp(ast.And(), x, ast.Compare(ast.Gt(), fld(_n(r)), ast.Integer("1"))))
     add("bool-right", {BOOL}, lambda x, r: ast.BoolOp(ast.Or(), ast.Compare(ast.Gt(), fld(_n(r)), ast.Integer("1")), x))
     add("not-operand", {BOOL}, lambda x, r: ast.UnaryOp(ast.Not(), x))
